@@ -113,7 +113,10 @@ class C12(core.PropertyCheck):
                 else:
                     out += [f".. include:: /includes/steps/{ctx['yaml'].rsplit('-', 1)[-1][:-5]}.rst", ""]
             elif r < 0.77:
-                out += [".. literalinclude:: /code/sample.py", "   :language: python", ""]
+                # now and then the file shown verbatim is itself a source file of the project (an include shown as an example)
+                # (disk histories only: what a literalinclude shows of a file with unsaved editor changes is not settled by the property)
+                shown = "/includes/shared.rst" if (ctx.get("lit_src") and rng.random() < 0.3) else "/code/sample.py"
+                out += [f".. literalinclude:: {shown}", "   :language: python", ""]
             elif r < 0.85:
                 out += [".. figure:: /images/a.png", "   :alt: a figure", ""]
             elif r < 0.9:
@@ -219,7 +222,8 @@ class C12(core.PropertyCheck):
         npages = rng.randint(1, 3)
         pages = [f"page{i + 1}" for i in range(npages)]
         yaml = rng.choice(["includes/extracts-a.yaml", "includes/extracts-a.yaml", "includes/steps-setup.yaml"])
-        ctx = {"pages": pages, "yaml": yaml, "dup": npages >= 2 and rng.random() < 0.3}
+        mode = rng.choice(["disk", "disk", "buffer"])
+        ctx = {"pages": pages, "yaml": yaml, "dup": npages >= 2 and rng.random() < 0.3, "lit_src": mode == "disk" and kind != "corr"}
         toml = 'name = "c12"\n\n[constants]\nversion = "4.2"\n'
         if rng.random() < 0.5:
             # project-wide substitutions holding link roles without a title of their own: the title is injected at every use,
@@ -252,7 +256,6 @@ class C12(core.PropertyCheck):
         for p, t in src.items():
             files["source/" + p] = t
         # history
-        mode = rng.choice(["disk", "disk", "buffer"])
         dense = rng.random() < 0.5
         exists = set(src)
         ever = set(src)
